@@ -44,7 +44,10 @@ class Facts:
             is_lib = cr["name"] == "rust_dsymbols" and inv and not inv[0]["test"] and "Rlib" in cr["crate_types"] or \
                 (cr["name"] == "rust_dsymbols" and inv and not inv[0]["test"] and "lib" in str(cr["crate_types"]).lower())
             parsed.append((fn, recs, cr, inv[0] if inv else None, is_lib))
+        self.root = None
         for fn, recs, cr, inv, is_lib in parsed:
+            if is_lib and inv:
+                self.root = inv["cwd"]
             self.crates.append({"name": cr["name"], "types": cr["crate_types"], "test": bool(inv and inv["test"]), "lib": bool(is_lib),
                                 "bodies": sum(1 for r in recs if r["kind"] == "body" and "promoted" not in r)})
             for f in recs:
@@ -437,6 +440,8 @@ class Body:
                 return ("str", op["str"])
             if "tyconst" in op:
                 return ("tyconst", op["tyconst"])
+            if "static" in op:
+                return ("ref", ("static", op["static"]))
             if "uneval" in op:
                 if "promoted" in op:
                     return self.promoted_origin(op["uneval"], op["promoted"])
